@@ -58,6 +58,9 @@ func main() {
 	write("Resume.lean", genResume())
 	write("HostMatcherWrites.lean", genHostMatcherWrites())
 	write("MapRanges.lean", genMapRanges())
+	write("ReplacerTree.lean", genReplacerTree())
+	write("AdapterSources.lean", genAdapterSources())
+	write("RouteCompile.lean", genRouteCompile())
 	write("LogWriterCloses.lean", genLogWriterCloses())
 	write("UsagePoolClients.lean", genUsagePoolClients())
 
@@ -2681,13 +2684,61 @@ func genConfigLocks() string {
 // to the file's bytes between reading and Format, or to the result between Format and the file /
 // stdout, shows up as an additional entry.
 func genFmtCmd() string {
-	_, f := parseFile("cmd/commandfuncs.go")
-	fd := findFunc(f, "", "cmdFmt")
+	rows := formatDataFlow("cmd/commandfuncs.go", "cmdFmt", "caddyfile.Format", []string{"os.WriteFile", "fmt.Print", "fmt.Fprint"})
+	lint := formatDataFlow("caddyconfig/caddyfile/adapter.go", "FormattingDifference", "Format", []string{"bytes.Equal"})
+	var allTok, adaptLint []string
+	_, pf := parseFile("caddyconfig/caddyfile/parse.go")
+	if fd := findFunc(pf, "", "allTokens"); fd != nil && fd.Body != nil {
+		ast.Inspect(fd.Body, func(n ast.Node) bool {
+			if rs, ok := n.(*ast.ReturnStmt); ok {
+				for _, r := range rs.Results {
+					allTok = append(allTok, exprText(r))
+				}
+			}
+			return true
+		})
+	}
+	_, af := parseFile("caddyconfig/caddyfile/adapter.go")
+	if fd := findFunc(af, "Adapter", "Adapt"); fd != nil && fd.Body != nil {
+		ast.Inspect(fd.Body, func(n ast.Node) bool {
+			switch t := n.(type) {
+			case *ast.AssignStmt: // what becomes of the parameter `body` on its way to Parse and to the lint
+				for _, l := range t.Lhs {
+					if idName(l) == "body" {
+						adaptLint = append(adaptLint, "body = …")
+					}
+				}
+			case *ast.CallExpr:
+				if fn := exprText(t.Fun); fn == "FormattingDifference" || fn == "Parse" {
+					adaptLint = append(adaptLint, exprText(t))
+				}
+			}
+			return true
+		})
+	}
+	return header +
+		"/-- cmd/commandfuncs.go cmdFmt, in source order: every assignment to a variable that is passed to `caddyfile.Format`\n" +
+		"    or holds its result (those variables renamed v0, v1, … in order of first appearance) and every os.WriteFile /\n" +
+		"    fmt.Print* call that mentions one of them or calls Format in place -/\n" +
+		"def cmdFmtDataFlow : List String := " + leanStrList(rows) + "\n\n" +
+		"/-- caddyconfig/caddyfile/adapter.go FormattingDifference, the same way (sink: bytes.Equal) -/\n" +
+		"def formattingDifferenceDataFlow : List String := " + leanStrList(lint) + "\n\n" +
+		"/-- caddyconfig/caddyfile/parse.go allTokens: what it returns -/\n" +
+		"def allTokensReturns : List String := " + leanStrList(allTok) + "\n\n" +
+		"/-- adapter.go (Adapter).Adapt, in source order: every call of Parse / FormattingDifference and every assignment to\n" +
+		"    its parameter `body` -/\n" +
+		"def adaptBodyUses : List String := " + leanStrList(adaptLint) + "\n" + footer
+}
+
+// formatDataFlow: see genFmtCmd.
+func formatDataFlow(rel, fn, formatFn string, sinks []string) []string {
+	_, f := parseFile(rel)
+	fd := findFunc(f, "", fn)
 	var rows []string
 	if fd != nil && fd.Body != nil {
 		isFormat := func(e ast.Expr) bool {
 			ce, ok := e.(*ast.CallExpr)
-			return ok && exprText(ce.Fun) == "caddyfile.Format"
+			return ok && exprText(ce.Fun) == formatFn
 		}
 		var tracked []string
 		track := func(name string) {
@@ -2745,7 +2796,7 @@ func genFmtCmd() string {
 			return s
 		}
 		mentions := func(s string) bool {
-			if strings.Contains(s, "caddyfile.Format(") {
+			if strings.Contains(s, formatFn+"(") {
 				return true
 			}
 			for _, w := range tracked {
@@ -2774,7 +2825,13 @@ func genFmtCmd() string {
 				}
 			case *ast.CallExpr:
 				fn := exprText(t.Fun)
-				if fn == "os.WriteFile" || strings.HasPrefix(fn, "fmt.Print") || strings.HasPrefix(fn, "fmt.Fprint") {
+				isSink := false
+				for _, sk := range sinks {
+					if strings.HasPrefix(fn, sk) {
+						isSink = true
+					}
+				}
+				if isSink {
 					if txt := exprText(t); mentions(txt) {
 						rows = append(rows, rename(txt))
 					}
@@ -2783,11 +2840,7 @@ func genFmtCmd() string {
 			return true
 		})
 	}
-	return header +
-		"/-- cmd/commandfuncs.go cmdFmt, in source order: every assignment to a variable that is passed to `caddyfile.Format`\n" +
-		"    or holds its result (those variables renamed v0, v1, … in order of first appearance) and every os.WriteFile /\n" +
-		"    fmt.Print* call that mentions one of them or calls Format in place -/\n" +
-		"def cmdFmtDataFlow : List String := " + leanStrList(rows) + "\n" + footer
+	return rows
 }
 
 // ---------------------------------------------------------------- C14: where `caddy run --resume` looks
@@ -3128,6 +3181,91 @@ func genLogWriterCloses() string {
 	}
 	sb.WriteString(strings.Join(rows, ", "))
 	sb.WriteString("]\n")
+	sb.WriteString(footer)
+	return sb.String()
+}
+
+// genAdapterSources (C16): the other places where the Caddyfile adapter could pick up nondeterminism, read off the
+// source of caddyconfig/** and modules/**/caddyfile.go (non-test): (a) every sort call with what it sorts and, for a
+// comparator literal, the expressions it returns; (b) every read of the environment / clock / randomness / file
+// system listing, every maps.Keys/Values call and every `go` statement.
+func genAdapterSources() string {
+	var files []string
+	filepath.Walk(filepath.Join(repo, "caddyconfig"), func(p string, info os.FileInfo, err error) error {
+		if err == nil && !info.IsDir() && strings.HasSuffix(p, ".go") {
+			files = append(files, p)
+		}
+		return nil
+	})
+	filepath.Walk(filepath.Join(repo, "modules"), func(p string, info os.FileInfo, err error) error {
+		if err == nil && !info.IsDir() && filepath.Base(p) == "caddyfile.go" {
+			files = append(files, p)
+		}
+		return nil
+	})
+	sort.Strings(files)
+	sortFns := map[string]bool{"sort.Strings": true, "sort.Ints": true, "slices.Sort": true, "sort.Slice": true, "sort.SliceStable": true,
+		"slices.SortFunc": true, "slices.SortStableFunc": true, "sort.Sort": true, "sort.Stable": true}
+	srcFns := map[string]bool{"time.Now": true, "time.Since": true, "os.Getenv": true, "os.LookupEnv": true, "os.Environ": true, "os.Hostname": true,
+		"os.Getwd": true, "os.ReadDir": true, "filepath.Glob": true, "filepath.Walk": true, "filepath.WalkDir": true, "maps.Keys": true, "maps.Values": true}
+	var sorts, sources []string
+	for _, fn := range files {
+		if strings.HasSuffix(fn, "_test.go") || strings.HasSuffix(fn, "_verif.go") || strings.HasSuffix(fn, "_fuzz.go") {
+			continue
+		}
+		fset := token.NewFileSet()
+		f, err := parser.ParseFile(fset, fn, nil, 0)
+		if err != nil {
+			continue
+		}
+		rel, _ := filepath.Rel(repo, fn)
+		for _, d := range f.Decls {
+			fd, ok := d.(*ast.FuncDecl)
+			if !ok || fd.Body == nil {
+				continue
+			}
+			where := rel + ":" + fd.Name.Name
+			ast.Inspect(fd.Body, func(x ast.Node) bool {
+				switch v := x.(type) {
+				case *ast.GoStmt:
+					sources = append(sources, "("+leanStr(where)+", \"go statement\")")
+				case *ast.CallExpr:
+					name := exprText(v.Fun)
+					if strings.HasPrefix(name, "rand.") || strings.HasPrefix(name, "weakrand.") {
+						sources = append(sources, "("+leanStr(where)+", "+leanStr(name)+")")
+					}
+					if srcFns[name] {
+						sources = append(sources, "("+leanStr(where)+", "+leanStr(name)+")")
+					}
+					if sortFns[name] && len(v.Args) > 0 {
+						cmp := ""
+						if len(v.Args) > 1 {
+							if fl, ok := v.Args[1].(*ast.FuncLit); ok {
+								var rets []string
+								ast.Inspect(fl.Body, func(y ast.Node) bool {
+									if r, ok := y.(*ast.ReturnStmt); ok && len(r.Results) == 1 {
+										rets = append(rets, exprText(r.Results[0]))
+									}
+									return true
+								})
+								cmp = strings.Join(rets, " | ")
+							} else {
+								cmp = exprText(v.Args[1])
+							}
+						}
+						sorts = append(sorts, "("+leanStr(where)+", "+leanStr(name)+", "+leanStr(exprText(v.Args[0]))+", "+leanStr(cmp)+")")
+					}
+				}
+				return true
+			})
+		}
+	}
+	var sb strings.Builder
+	sb.WriteString(header)
+	sb.WriteString("/-- every sort call in caddyconfig/** and modules/**/caddyfile.go: (file:function, sort function, what is sorted,\n    the expressions a comparator literal returns, joined by ` | `; empty for the plain sorts) -/\n")
+	sb.WriteString("def adapterSortCalls : List (String × String × String × String) := [\n  " + strings.Join(sorts, ",\n  ") + "]\n")
+	sb.WriteString("\n/-- every read of the environment, the clock, randomness or a directory listing, every maps.Keys / maps.Values call and\n    every `go` statement in the same files: (file:function, what) -/\n")
+	sb.WriteString("def adapterOutsideInputs : List (String × String) := [\n  " + strings.Join(sources, ",\n  ") + "]\n")
 	sb.WriteString(footer)
 	return sb.String()
 }
